@@ -99,6 +99,12 @@ class JaqalLexer(Lexer):
 
     def NUMBER(self, token):
         token.value = float(token.value)
+        if token.value in (float("inf"), float("-inf")):
+            # Out of range for a float; infinity cannot be written in Jaqal
+            col = token.index - self.text.rfind("\n", 0, token.index)
+            raise JaqalParseError(
+                "<string>", self.lineno, col, "Number literal too large"
+            )
         return token
 
     def BININT(self, token):
